@@ -61,6 +61,17 @@ class Buf(bytes):
     """a raw input that is a SUBCLASS of bytes (like bisturi.util.SeekableFile): the library accepts it wherever it accepts bytes"""
 
 
+def views(x):
+    """the same bytes as instances of bytes subclasses: one that keeps its content, and the library's own file-backed
+    bisturi.util.SeekableFile, whose content is only reachable through its overridden slicing"""
+    import io
+    out = [('a bytes subclass', Buf(x))]
+    if x:
+        from bisturi.util import SeekableFile
+        out.append(('bisturi.util.SeekableFile', SeekableFile(io.BytesIO(x))))
+    return out
+
+
 def observe(dc, raw, start):
     """('ok', values, end) | ('err', shifted stack) | ('exc', type)"""
     u = ea.impl_unpack(dc.K, raw, start)
@@ -123,13 +134,17 @@ def check_one(dc, st, raw, r, maxaff):
                 x = u + region + v
                 got = observe(dc, x, len(u))
                 want = ('ok', base[1], len(u) + e)
+                given = ''
                 if got == want and not v and u == bytes(syms[:1]):
-                    got = observe(dc, Buf(x), len(u))       # the same bytes as an instance of a bytes subclass (one prefix per input)
+                    for vname, view in views(x):            # the same bytes as an instance of a bytes subclass (one prefix per input)
+                        if got == want:
+                            got = observe(dc, view, len(u))
+                            given = ' [the first argument given as %s]' % vname
                 if got != want:
                     kind = 'prefix' if (u and not v) else ('suffix' if (v and not u) else ('both' if u else 'cut-tail'))
                     st.violate('unpack depends on %s bytes' % kind,
-                               '%s.unpack(%r, %d) -> %r but %s.unpack(%r) -> %r (region end %d) | %s' % (
-                                   dc.P['name'], x, len(u), got, dc.P['name'], raw, base, e, srcline),
+                               '%s.unpack(%r, %d)%s -> %r but %s.unpack(%r) -> %r (region end %d) | %s' % (
+                                   dc.P['name'], x, len(u), given, got, dc.P['name'], raw, base, e, srcline),
                                dc.case(raw=raw), dc.snippet('print(%s.unpack(%r, %d))\nprint(%s.unpack(%r))' % (dc.P['name'], x, len(u), dc.P['name'], raw)))
                     return
     elif base[0] == 'err':
@@ -141,11 +156,15 @@ def check_one(dc, st, raw, r, maxaff):
             st.inc('transitions')
             got = observe(dc, u + raw, len(u))
             want = ('err', [(o + len(u), n, c) for o, n, c in base[1]])
+            given = ''
             if got == want and u == bytes(syms[:1]):
-                got = observe(dc, Buf(u + raw), len(u))     # the same bytes as an instance of a bytes subclass (one prefix per input)
+                for vname, view in views(u + raw):          # the same bytes as an instance of a bytes subclass (one prefix per input)
+                    if got == want:
+                        got = observe(dc, view, len(u))
+                        given = ' [the first argument given as %s]' % vname
             if got != want:
                 st.violate('error offsets do not shift with the start offset',
-                           '%s.unpack(%r, %d) -> %r but %s.unpack(%r) -> %r | %s' % (dc.P['name'], u + raw, len(u), got, dc.P['name'], raw, base, srcline),
+                           '%s.unpack(%r, %d)%s -> %r but %s.unpack(%r) -> %r | %s' % (dc.P['name'], u + raw, len(u), given, got, dc.P['name'], raw, base, srcline),
                            dc.case(raw=raw), dc.snippet('%s.unpack(%r, %d)' % (dc.P['name'], u + raw, len(u))))
                 return
 
@@ -168,7 +187,7 @@ def run(tier):
     cov = ea.coverage(st, 'every declaration of the alphabet without start-of-data positioning / class align / element alignment / read-to-end; for every '
                           'input of the enumeration: accepted -> all (prefix, suffix) pairs of length <=%d (two for the single-component declarations of the thorough tier, one elsewhere and for inputs longer than 48 bytes) over the declaration alphabet (which contains its '
                           'markers and count bytes), suffixes skipped when the region ends in a regex delimiter; rejected -> all prefixes, error offsets must '
-                          'shift; states = distinct (declaration, outcome, region end / error offset)' % (1 if tier == 'quick' else 2))
+                          'shift; one prefixed input per case once more as a bytes subclass and as the file-backed bisturi.util.SeekableFile; states = distinct (declaration, outcome, region end / error offset)' % (1 if tier == 'quick' else 2))
     cov['transitions'] = st.n.get('transitions', 0)
     cov['traces_validated_against_impl'] = st.n.get('transitions', 0) + st.n.get('evaluations', 0)
     cov['rule'] += LADDER_NOTE
